@@ -26,6 +26,7 @@ import (
 	"crypto/x509"
 	"crypto/x509/pkix"
 	"encoding/asn1"
+	"encoding/json"
 	"encoding/pem"
 	"fmt"
 	"math/big"
@@ -371,4 +372,15 @@ func PEM(cas ...*Authority) []byte {
 		out = append(out, pem.EncodeToMemory(&pem.Block{Type: "CERTIFICATE", Bytes: a.DER})...)
 	}
 	return out
+}
+
+// AddChainBody is the JSON body of an add-chain / add-pre-chain request.
+func AddChainBody(chain [][]byte) []byte {
+	b, err := json.Marshal(struct {
+		Chain [][]byte `json:"chain"`
+	}{chain})
+	if err != nil {
+		panic(err)
+	}
+	return b
 }
